@@ -26,7 +26,8 @@ func c12(c *Ctx) {
 	// R3
 	c05R3(c, "R3/C05.R3")
 	c08R3(c, "R3/C08.R3")
-	sHigherLeaderSide(c, "R3/S-HIGHER")
+	sHigher(c, "R3/S-HIGHER")
+	c12R6(c, "R6")
 	c12R4(c, "R4")
 	sUpToDate(c, "R5/S-UPTODATE", "(*Raft).requestVote", "RequestVoteRequest", "RequestVoteResponse", false, true)
 	sUpToDate(c, "R5/S-UPTODATE", "(*Raft).requestPreVote", "RequestPreVoteRequest", "RequestPreVoteResponse", false, true)
@@ -275,5 +276,53 @@ func c12R4(c *Ctx, rule string) {
 				c.RequireAt(rv, rule, "ValidateConfig:timeouts-at-least-5ms", ret, "HeartbeatTimeout and ElectionTimeout >= 5ms", func(v engine.View) bool { return v.F("hbTiny") && v.F("elTiny") })
 			}
 		}
+	}
+}
+
+
+// c12R6: a successful AppendEntries ends the failure back-off: the failure
+// counter that drives the wait at the top of replicateTo is cleared before the
+// next batch is prepared, so catch-up proceeds at RPC speed and not at one
+// back-off interval per batch.
+func c12R6(c *Ctx, rule string) {
+	fn := c.Fn(rule, "(*Raft).replicateTo")
+	ff := c.Field(rule, "followerReplication", "failures")
+	if fn == nil || ff == nil {
+		return
+	}
+	var waitIf ssa.Instruction
+	engine.EachInstr(fn, func(in ssa.Instruction) {
+		if ifi, ok := in.(*ssa.If); ok {
+			cd := c.P.CondOf(ifi.Cond)
+			if cd.IsRel && cd.X == "p1.failures" && cd.Y == "0" {
+				waitIf = in
+			}
+		}
+	})
+	if waitIf == nil {
+		c.Bad(rule, "replicateTo:backoff-test", c.P.Pos(fn.Pos()), "a test of s.failures before each attempt", "not found")
+		return
+	}
+	r := c.Run(&engine.Automaton{Fn: fn, Tracks: []engine.Track{
+		engine.Event("attempt", func(in ssa.Instruction) bool { return in == waitIf }, "acked", "cleared"),
+		engine.Event("acked", c.P.IsCallTo(engine.Is("updateLastAppended"))),
+		engine.Event("cleared", func(in ssa.Instruction) bool {
+			v, ok := c.P.StoredValue(in, ff)
+			return ok && c.P.D(v) == "0"
+		}),
+	}})
+	sites := []ssa.Instruction{waitIf}
+	for _, ret := range engine.ReturnsOf(fn) {
+		sites = append(sites, ret)
+	}
+	for i, s := range sites {
+		c.RequireAt(r, rule, fmt.Sprintf("replicateTo:success-clears-failures#%d", i+1), s, "after an acknowledged batch (updateLastAppended) the failure counter is reset to 0 before the next attempt or return", func(v engine.View) bool {
+			return !v.Seen("acked") || v.Seen("cleared")
+		})
+	}
+	// the wait itself is bounded: backoff(base, failures, limit) with a constant limit
+	for _, s := range c.P.CallsIn(fn, engine.Is("backoff")) {
+		ok := c.P.Arg(s.Instr, 1) == "p1.failures" && !strings.Contains(c.P.Arg(s.Instr, 2), "p1.")
+		c.Check(rule, "replicateTo:backoff-bounded", c.P.InstrPos(s.Instr), "the wait is backoff(base, s.failures, constant limit)", ok, "backoff("+c.P.Arg(s.Instr, 0)+", "+c.P.Arg(s.Instr, 1)+", "+c.P.Arg(s.Instr, 2)+")", 1)
 	}
 }
